@@ -128,6 +128,12 @@ def run(task):
                 if not obs["ok"]:
                     continue
                 res["traces"] += 1
+                if obs.get("prev_changed"):
+                    pc = obs["prev_changed"]
+                    report(f"an alignment returned earlier carries other values after a later alignment computation: "
+                           f"disorder {pc['before'][1]} -> {pc['after'][1] if not isinstance(pc['after'], str) else pc['after']}",
+                           {"spec": spec, "recipe": recipe, "point": "sequence", "nts": obs["nts"],
+                            "sequence": [pc["case"], A.case_dict(spec, recipe, "cbc", kind, window)]})
                 uds, tot = definition(obs["nts"], recipe, m, n)
                 case = {"spec": spec, "recipe": recipe, "point": f"library {kind} w={window}", "nts": obs["nts"]}
                 if not close(obs["disorder"], tot):
@@ -216,6 +222,13 @@ def replay(case):
             k = sum(1 for _, u in nts[0] if u is not None)
             out.append({"msg": f"UnitaryAlignment.compute_disorder: {got} but the definition gives {ud}",
                         "known": KNOWN_KEY if (k < n and close(got, ud * n / k)) else None, "case": case})
+    elif case["point"] == "sequence":
+        A._held.clear()
+        first, second = case["sequence"]
+        A.eval_case(first["spec"], first["recipe"], first["backend"], first["kind"], first.get("window"))
+        o2 = A.eval_case(second["spec"], second["recipe"], second["backend"], second["kind"], second.get("window"))
+        if o2.get("prev_changed"):
+            out.append({"msg": "an alignment returned earlier changed after a later alignment computation", "case": case})
     elif case["point"].startswith("library"):
         _, kind, w = case["point"].split(" ")
         window = None if w == "w=None" else int(w[2:])
